@@ -162,8 +162,10 @@ def sequences(ctx, rows, mode_val):
     """switch-state-selective and identify-remote-slave step chains"""
     m = ctx.m
     IDENT = 0x00001000
+    fam_steps = {}
     for (fam, chain, final_cs, resp, enters_conf) in (('selective', SELECTIVE, 67, 68, True),
                                                      ('identify', IDENTIFY, 75, 79, False)):
+        fam_steps[fam] = set()
         need_step = None       # step value handler k must see (None for the first)
         first_reset = None
         for k, (cs, sub, op) in enumerate(chain):
@@ -259,6 +261,20 @@ def sequences(ctx, rows, mode_val):
                                         ctx.find(P, 'RF1-lss-seq', hn, 'keeps-successor-state', m.loc(hn, m.funcs[hn].line),
                                                  '%s leaves Step at %d on a non-matching request' % (hn, nxt))
                     need_step = nxt
+                    fam_steps[fam].add(nxt)
+    # both sequences keep their progress in the one field lss->Step: the progress values of the two families must be
+    # disjoint, otherwise progress in one sequence counts as progress in the other (a partial identify sequence
+    # completed by a single selective frame switches the slave into configuration state)
+    common = fam_steps.get('selective', set()) & fam_steps.get('identify', set())
+    site = 'progress values of the selective (%s) and identify (%s) sequences' % (sorted(fam_steps.get('selective', ())), sorted(fam_steps.get('identify', ())))
+    if common:
+        ctx.ob(P, 'RF1-lss-seq', 'COLssCheck', site, None)
+        ctx.find(P, 'RF1-lss-seq', 'COLssCheck', 'shared-progress-values', m.loc('COLssCheck', m.funcs['COLssCheck'].line),
+                 '%s overlap in %s: the sequences share lss->Step, so frames of one service advance the other' % (site, sorted(common)))
+    elif not fam_steps.get('selective') or not fam_steps.get('identify'):
+        ctx.broke(P, 'RF1-lss-seq: progress values of the LSS sequences could not be derived')
+    else:
+        ctx.ob(P, 'RF1-lss-seq', 'COLssCheck', site, 'disjoint')
 
 
 def config_services(ctx, rows, mode_val):
